@@ -16,7 +16,7 @@ DIMS = {"x": 2, "y": 3}
 
 def _mat_of(seed):
     def mat_of(b, dd, dc):
-        return ref.generic_array(str(b.name), ref.prod(dd), ref.prod(dc), seed)
+        return ref.generic_array(name_key(b), ref.prod(dd), ref.prod(dc), seed)
     return mat_of
 
 
@@ -25,7 +25,7 @@ def _sig(kind, params):
 
 
 def name_key(b):
-    return str(b.name)
+    return str(b.name) if hasattr(b, "name") else "<%s>" % (b,)   # boxes of a foliation are diagrams
 
 
 def check_call(params):
@@ -101,10 +101,10 @@ def check_call(params):
         return out
     if ref.ty_key(res.dom) != ref.ty_key(d.dom) or ref.ty_key(res.cod) != ref.ty_key(d.cod):
         bad("domcod", "dom/cod changed")
-    names = [str(b.name) for b in d.boxes]
+    names = [name_key(b) for b in d.boxes]
     want = names[:i] + names[i + 1:]
     want.insert(j, names[i])
-    got = [str(b.name) for b in res.boxes]
+    got = [name_key(b) for b in res.boxes]
     if got != want:
         bad("order", "box order %s, expected %s" % (got, want))
     if type(res) is not type(d) and not isinstance(d, type(res)):
@@ -124,6 +124,9 @@ def check_call(params):
 
 
 def build_any(recipe):
+    if recipe[0] == "zoo":
+        from mc import zoo
+        return zoo.value(recipe[1], recipe[2])
     if recipe[0] == "tensor":      # bubbles in tensor diagrams need the polynomial of the alphabet
         build.kit("tensor").ns["poly"] = lambda v: v * v + 1
     return build.build(recipe)
@@ -260,7 +263,7 @@ def _worker_calls(shard, validated=False):
     part = Part()
     seed, items = shard
     for recipe in items:
-        n = len(recipe[2])
+        n = len(recipe[2]) if recipe[0] != "zoo" else len(build_any(recipe))
         part.count("states")
         for i in range(-1, n + 1):
             for j in range(-1, n + 1):
@@ -341,5 +344,26 @@ def run(ctx):
         ctx.note("universe_sizes", "%s=%d" % (label, len(rs)))
         for p in pmap(_worker_calls, [(ctx.seed, sh) for sh in build.shards(rs, 32)]):
             ctx.merge(p)
+    # composite subclasses (own constructors), foliations (boxes that are diagrams), and every
+    # two-box tensor / composite of zoo boxes of each class
+    from mc import zoo
+    zs = []
+    for cls in zoo.CLASSES:
+        if cls == "cat":
+            continue
+        for e in zoo.COMPOSITES.get(cls, []):
+            zs.append(("zoo", cls, e))
+        boxes = zoo.BOXES[cls]
+        reps = boxes[:: max(1, len(boxes) // (6 if ctx.quick else 14))]
+        for a in boxes:
+            for b in reps:
+                zs.append(("zoo", cls, "(%s) @ (%s)" % (a, b)))
+                zs.append(("zoo", cls, "(%s) @ (%s) @ (%s)" % (b, a, b)))
+    if ctx.quick:
+        ctx.cap_hit("zoo: second operand of the two/three-box products ranges over 6 representatives per class")
+    zs = [r for r in zs if len(build_any(r)) >= 2]
+    ctx.note("universe_sizes", "zoo=%d" % len(zs))
+    for p in pmap(_worker_calls, [(ctx.seed, sh) for sh in build.shards(zs, 32)]):
+        ctx.merge(p)
     if ctx.counters.get("class_capped"):
         ctx.cap_hit("class BFS cap reached for %d seeds" % ctx.counters["class_capped"])
